@@ -37,7 +37,19 @@ def prop_theorems(pid):
     src = strip_comments(open(p).read())
     return re.findall(r"^theorem\s+([A-Za-z0-9_'.]+)", src, re.M)
 
-def proof_stage(pid):
+def module_closure(mod):
+    """FsVerif modules `mod` imports, transitively (module names)"""
+    seen, todo = [], [mod]
+    while todo:
+        m = todo.pop()
+        if m in seen: continue
+        f = os.path.join(LEAN_DIR, *m.split(".")) + ".lean"
+        if not os.path.exists(f): continue
+        seen.append(m)
+        for x in re.findall(r"^import\s+(FsVerif\.[A-Za-z0-9_.]+)", open(f).read(), re.M): todo.append(x)
+    return sorted(seen)
+
+def proof_stage(pid, tier="quick"):
     """returns dict(ok, obligations, discharged, theorems, axioms, problems, build_s)"""
     t0 = time.time()
     res = dict(ok=True, obligations=0, discharged=0, theorems=[], axioms=[], problems=[])
@@ -81,6 +93,15 @@ def proof_stage(pid):
         if seen != len(names):
             res["ok"] = False; res["problems"].append(f"axiom audit saw {seen} of {len(names)} theorems: {txt[-300:]}")
         res["axioms"] = sorted(used)
+    if tier == "thorough" and p.returncode == 0:
+        # the toolchain's independent re-checker replays every declaration of the property module and of every FsVerif module it
+        # imports through the kernel again, from the compiled .olean files
+        mods = module_closure(mod)
+        tq = time.time()
+        q = subprocess.run(["lake", "env", "leanchecker"] + mods, cwd=LEAN_DIR, capture_output=True, text=True)
+        res["leanchecker"] = dict(modules=len(mods), exit=q.returncode, seconds=round(time.time() - tq, 1))
+        if q.returncode != 0:
+            res["ok"] = False; res["problems"].append("leanchecker rejected the compiled modules: " + (q.stdout + q.stderr)[-400:])
     res["build_s"] = round(time.time() - t0, 2)
     return res
 
